@@ -11,31 +11,7 @@ def region(name):
 
 # ---- C19 (mir_eval.separation) ---------------------------------------------------------
 
-@region("c19_images_framewise_isr_silent_window")
-def _c19_isr_silent(inp):
-    """complement of `images_framewise_silent_nan_partial` (o != 1): the isr output on a window with a silent source"""
-    return (inp.get("fn") == "images_framewise" and inp.get("check") == "fw_silent_nan_isr"
-            and len(inp.get("silent") or []) > 0)
-
-
-@region("c19_images_framewise_empty_arity")
-def _c19_empty_arity(inp):
-    """complement of the hypothesis of `images_framewise_arity_partial`: an empty input"""
-    if not (inp.get("fn") == "images_framewise" and inp.get("check") == "arity_empty"):
-        return False
-    size = 1
-    for d in inp.get("shape", [1]):
-        size *= d
-    return size == 0
-
-
 @region("c19_images_scale_sdr_isr")
 def _c19_scale_sdr_isr(inp):
     """outputs excluded from `image_crit_sir_sar_scale_partial`: SDR and ISR of bss_eval_images under rescaling"""
     return inp.get("fn") == "images" and inp.get("check") == "scale_sdr_isr" and inp.get("scale_factor") not in (None, 1, 1.0)
-
-
-@region("c19_singular_system_numpy2")
-def _c19_singular(inp):
-    """exactly singular Gram matrix (dedicated oracle input; outside "sufficiently long" signals)"""
-    return inp.get("fn") == "images" and inp.get("check") == "singular"
